@@ -34,14 +34,15 @@ type fileSpec struct {
 }
 
 type builtFile struct {
-	Path       string
-	Bytes      []byte // the file as found on the FS after the writer finished
-	RecSize    uint64 // size the writer reports (what Save puts into pb.Snapshot.FileSize); 0 if n/a
-	RecSum     []byte // checksum the writer reports (pb.Snapshot.Checksum); nil if n/a
-	Stored     uint64 // bytes handed to the snapshot writer after compression
-	Chunks     []pb.Chunk
-	HeaderLen  int  // length of the marshalled header record
-	SlotFilled bool // header CRC slot is non-zero
+	InputModified bool // a writer changed the bytes of the slice handed to Write
+	Path          string
+	Bytes         []byte // the file as found on the FS after the writer finished
+	RecSize       uint64 // size the writer reports (what Save puts into pb.Snapshot.FileSize); 0 if n/a
+	RecSum        []byte // checksum the writer reports (pb.Snapshot.Checksum); nil if n/a
+	Stored        uint64 // bytes handed to the snapshot writer after compression
+	Chunks        []pb.Chunk
+	HeaderLen     int  // length of the marshalled header record
+	SlotFilled    bool // header CRC slot is non-zero
 }
 
 func readAllFS(fs vfs.FS, fp string) ([]byte, error) {
@@ -120,6 +121,15 @@ func streamChunks(sink *collectSink, meta rsm.SSMeta, payload []byte, segs []int
 // buildFile produces a snapshot file on fs.
 func buildFile(fs vfs.FS, fp string, sp fileSpec) (bf *builtFile, err error) {
 	bf = &builtFile{Path: fp}
+	// the writers get a private copy of the payload: sp.Payload stays what the state machine
+	// wrote also when a writer scribbles over its input (io.Writer forbids that)
+	pristine := sp.Payload
+	sp.Payload = append([]byte(nil), pristine...)
+	defer func() {
+		if bf != nil && !bytes.Equal(sp.Payload, pristine) {
+			bf.InputModified = true
+		}
+	}()
 	switch sp.Kind {
 	case kindW2:
 		// snapshotter.Save: NewSnapshotWriter -> CountedWriter -> Compressor
